@@ -1004,6 +1004,8 @@ func (g *Gen) opStaleTargetQuery() bool {
 			break
 		}
 	}
+	r := rels[g.pick(len(rels))]
+	var pre []int
 	if dead < 0 {
 		// make one: remove an entity and create another right away (LIFO recycling)
 		al := g.aliveLabels()
@@ -1011,6 +1013,20 @@ func (g *Gen) opStaleTargetQuery() bool {
 			return false
 		}
 		dead = al[g.pick(len(al))]
+		// filters with this entity as FIXED target, defined while it is alive and registered only after
+		// its ID was recycled: the cache entry must be built with the same (generation-exact) test as
+		// the uncached walk
+		// (typed filters only: UnsafeFilter has neither fixed targets nor registration)
+		for i := 0; i < 2; i++ {
+			f := g.nextFilter
+			g.nextFilter++
+			g.emit(fmt.Sprintf("filter f%d typed with=c%d rel=c%d>e%d", f, r, r, dead))
+			if _, ok := g.h.filters[f]; ok {
+				g.filterLabels = append(g.filterLabels, f)
+				g.typedFilters = append(g.typedFilters, f)
+				pre = append(pre, f)
+			}
+		}
 		g.emit(fmt.Sprintf("del e%d", dead))
 		alive = g.nextEnt
 		g.nextEnt++
@@ -1020,12 +1036,16 @@ func (g *Gen) opStaleTargetQuery() bool {
 			return true
 		}
 	}
-	r := rels[g.pick(len(rels))]
 	// the new incarnation becomes a target of relation r
 	l := g.nextEnt
 	g.nextEnt++
 	g.ents = append(g.ents, l)
 	g.emit(fmt.Sprintf("new e%d u c%d:%d>e%d", l, r, g.val(), alive))
+	for _, f := range pre {
+		g.emit(fmt.Sprintf("query f%d", f))
+		g.emit(fmt.Sprintf("freg f%d", f))
+		g.emit(fmt.Sprintf("query f%d", f))
+	}
 	// unsafe and typed filters on r, queried for the dead handle
 	for _, kind := range []string{"unsafe", "typed"} {
 		f := g.nextFilter
